@@ -145,16 +145,22 @@ def choose_wrap(chk, prog):
     where = f"{m.rel}:{fn.lineno}"
     ok = is_t(r.ret, "treemap") and r.ret[2] == (("star", P("pytrees")),)
     chk.require(ok, "CHOOSE-WRAP", "tree_choose/map", "leafwise over all pytrees", derived=show(r.ret)[:200], expected="jtu.tree_map(inner, *pytrees)", where=where)
-    inner = prog.nested(fn, "inner")
-    ri = Evaluator(prog).eval_fn(inner, m, env0={"idx": P("idx")})
-    VS = P("vs")
+    # the leaf function is read off the evaluated map (a local def, a partial of a module-level worker, a lambda: all the same term): its value per kind of
+    # index, the leaves of all pytrees being `vs`
+    from ..rules import Undecided, pick
+    VS = ("tuple", (("leaf", ("star", P("pytrees"))),))
     ch = ("call", G("jax.numpy.choose"), (P("idx"), VS), (("mode", C("wrap")),))
-    got = Arms()
-    for conds, ret in ri.returns:
-        if any(is_t(t, "isinst") and t[1] == P("idx") and t[2] == "int" and p for t, p in conds):
-            got["int"] = ret
-        else:
-            got["array"] = ret
+    got = {}
+    if ok:
+        for kind, is_int in (("int", True), ("array", False)):
+            def atom(c, is_int=is_int):
+                if is_t(c, "isinst") and c[1] == P("idx") and c[2] == "int":
+                    return is_int
+                raise Undecided(show(c))
+            try:
+                got[kind] = pick(r.ret[1], atom)
+            except Undecided:
+                got[kind] = None
     okm = got.get("array") == ch
     chk.require(okm, "CHOOSE-WRAP", "tree_choose/array", "jnp.choose(idx, vs, mode='wrap')", derived=show(got.get("array")), expected=show(ch), where=where)
     gi = got.get("int")
